@@ -20,6 +20,22 @@ OPERATORS = collections.defaultdict(lambda: not_implemented)
 
 numeric_wrap = functools.partial(wrap_ufunc)
 
+
+def xpower(x, y):
+    if not x:
+        if not y:
+            return Error.errors['#NUM!']
+        if y < 0:
+            return Error.errors['#DIV/0!']
+    try:
+        res = x ** y
+    except OverflowError:
+        return Error.errors['#NUM!']
+    if isinstance(res, complex):
+        return Error.errors['#NUM!']
+    return res
+
+
 # noinspection PyTypeChecker
 OPERATORS.update({k: numeric_wrap(v) for k, v in {
     '+': lambda x, y: x + y,
@@ -27,7 +43,7 @@ OPERATORS.update({k: numeric_wrap(v) for k, v in {
     'U-': lambda x: -x,
     '*': lambda x, y: x * y,
     '/': lambda x, y: (x / y) if y else Error.errors['#DIV/0!'],
-    '^': lambda x, y: x ** y,
+    '^': xpower,
     '%': lambda x: x / 100.0,
 }.items()})
 OPERATORS['U+'] = wrap_ufunc(
